@@ -147,6 +147,7 @@ class Harness:
         self.script = None
         self.problems = []
         self.events = {}
+        self.monitor_error = None
         self.max_ticks = int(self.params["duration"] * self.params["ticks_per_second"])
 
     def problem(self, tags, kind, msg):
@@ -156,6 +157,18 @@ class Harness:
 
     def ev(self, name, n=1):
         self.events[name] = self.events.get(name, 0) + n
+
+    def dispatch(self, hook, *args):
+        """Call a hook on every monitor.  A failure inside monitor code must never look like a
+        failure of the system under test: it is recorded and monitoring stops (-> inconclusive)."""
+        if self.monitor_error is not None:
+            return
+        for m in self.monitors:
+            try:
+                getattr(m, hook)(self, *args)
+            except Exception:
+                self.monitor_error = f"{type(m).__name__}.{hook}: " + traceback.format_exc()[-1500:]
+                return
 
     # ------------------------------------------------------------------ wiring
     def make_workload(self):
@@ -187,8 +200,7 @@ class Harness:
             return res
 
         self.ex.run_one_tick = run_one_tick
-        for m in self.monitors:
-            m.attached(self, s)
+        self.dispatch("attached", s)
 
     def note_exc(self, e, where):
         if self.exc is None:
@@ -201,14 +213,12 @@ class Harness:
         for p in ps:
             self.pipelines.append(p)
             self.arrival_tick[id(p)] = self.tick
-        for m in self.monitors:
-            m.arrivals(self, self.tick, ps)
+        self.dispatch("arrivals", self.tick, ps)
 
     def round(self, s, algo, results, pipelines):
         t = self.tick
         self.n_rounds += 1
-        for m in self.monitors:
-            m.sched_pre(self, t, s, results, pipelines)
+        self.dispatch("sched_pre", t, s, results, pipelines)
         try:
             sus, asg = SCHEDULING_ALGOS[algo](s, results, pipelines)
         except Exception as e:
@@ -219,16 +229,18 @@ class Harness:
         if sus or asg:
             self.last_decision = (t, [(x.container_id, x.pool_id) for x in sus],
                                   [(a.pipeline_id, len(a.ops), a.cpu, a.ram, a.pool_id) for a in asg])
-        for m in self.monitors:
-            m.sched_post(self, t, s, sus, asg)
+        self.dispatch("sched_post", t, s, sus, asg)
         return sus, asg
 
     def on_exec(self, results):
         t = self.tick
         self.cur_results = list(results)
-        self.track_containers(results)
-        for m in self.monitors:
-            m.exec_post(self, t, results)
+        if self.monitor_error is None:
+            try:
+                self.track_containers(results)
+            except Exception:
+                self.monitor_error = "container tracker: " + traceback.format_exc()[-1500:]
+        self.dispatch("exec_post", t, results)
 
     def track_containers(self, results):
         by_ops = {tuple(id(o) for o in a.ops): a for a in self.cur_assignments}
@@ -289,19 +301,16 @@ class Harness:
         params["scheduler_algo"] = key
         wl = _Recording(self, self.make_workload())
         Harness.current = self
-        for m in self.monitors:
-            m.begin(self)
+        self.dispatch("begin")
         try:
             with self.log:
                 try:
                     self.stats = run_simulator(params, workload=wl)
                 except Exception as e:
                     self.note_exc(e, "simulator")
-                    for m in self.monitors:
-                        m.raised(self, self.exc, self.exc_where)
+                    self.dispatch("raised", self.exc, self.exc_where)
                     return None
-            for m in self.monitors:
-                m.end(self, self.stats)
+            self.dispatch("end", self.stats)
             return self.stats
         finally:
             Harness.current = None
